@@ -240,3 +240,48 @@ package http2
 //@   ensures [C19:order-accept] !fr.AllowIllegalReads && ((old(fr.lastHeaderStream) != 0 && hdrOf(f).Type == 9 && hdrOf(f).StreamID == old(fr.lastHeaderStream)) || (old(fr.lastHeaderStream) == 0 && hdrOf(f).Type != 9)) ==> err == nil
 //@   ensures [C19:order-state] err == nil && !fr.AllowIllegalReads ==> fr.lastHeaderStream == ite(hdrOf(f).Type == 1 || hdrOf(f).Type == 9, ite(flag(hdrOf(f).Flags, 4), 0, hdrOf(f).StreamID), old(fr.lastHeaderStream))
 //@   ensures fr.lastFrame == f
+
+//@ -- ReadFrame ------------------------------------------------------------------------------------
+//@ pure func isParser(p frameParser) bool = p == parseDataFrame || p == parseHeadersFrame || p == parsePriorityFrame || p == parseRSTStreamFrame || p == parseSettingsFrame || p == parsePushPromise || p == parsePingFrame || p == parseGoAwayFrame || p == parseWindowUpdateFrame || p == parseContinuationFrame || p == parseUnknownFrame
+
+//@ globalinv [C19:parser-table] frameParsers != nil && mapHas(frameParsers, 1) && mapGet(frameParsers, 1) == parseHeadersFrame && (forall t FrameType :: mapHas(frameParsers, t) ==> isParser(mapGet(frameParsers, t)))
+//@ globalinv [C19:too-large-sentinel] ErrFrameTooLarge != nil
+
+//@ func typeFrameParser :: t -> p
+//@   props C19
+//@   assigns nothing
+//@   ensures [C19:parser-known] isParser(p)
+//@   ensures [C19:headers-parser] t == 1 ==> p == parseHeadersFrame
+
+//@ func Frame.invalidate :: f
+//@   trusted
+//@   assigns FrameHeader.valid
+
+//@ func field Framer.getReadBuf :: size -> buf
+//@   trusted
+//@   pure
+//@   ensures len(buf) == size
+
+//@ func field Framer.debugReadLoggerf
+//@   trusted
+//@   pure
+
+//@ func field Framer.countError
+//@   trusted
+//@   pure
+
+//@ func summarizeFrame
+//@   trusted
+//@   pure
+
+//@ -- header-block reassembly is specified with the HPACK decoder (C18); here only its framing role
+//@ func (*Framer).readMetaFrame :: fr, hf -> f, err
+//@   trusted
+//@   requires fr != nil && hf != nil
+
+//@ func (*Framer).ReadFrame :: fr -> f, err
+//@   props C19,C10
+//@   requires fr != nil
+//@   ensures [C19:read-limit] err == nil && fr.ReadMetaHeaders == nil ==> hdrOf(f).Length <= fr.maxReadSize
+//@   ensures [C19:order-enforced] err == nil && fr.ReadMetaHeaders == nil && !fr.AllowIllegalReads && old(fr.lastHeaderStream) != 0 ==> hdrOf(f).Type == 9 && hdrOf(f).StreamID == old(fr.lastHeaderStream)
+//@   ensures [C19:no-stray-continuation] err == nil && fr.ReadMetaHeaders == nil && !fr.AllowIllegalReads && old(fr.lastHeaderStream) == 0 ==> hdrOf(f).Type != 9
